@@ -132,4 +132,12 @@ static void conformance_cases(void) {
       OUT("15.rw-wrlock", pthread_rwlock_wrlock(&rw)); OUT("15.rw-reader-while-written-is-EBUSY", pthread_rwlock_tryrdlock(&rw) == EBUSY); OUT("15.rw-unlock", pthread_rwlock_unlock(&rw));
       OUT("15.rw-trywrlock-free", pthread_rwlock_trywrlock(&rw)); pthread_rwlock_unlock(&rw); }
     OUT("15.self-equal", pthread_equal(pthread_self(), pthread_self()) != 0);
+
+    /* 16: what poll() says about pipes whose other end is gone */
+    PIPE(r, w); OUT("16.poll-empty-pipe", POLLREV(r, 0x001)); WR(w, "ab"); OUT("16.poll-data", POLLREV(r, 0x001)); CLOSE(w);
+    OUT("16.poll-data-writer-gone", POLLREV(r, 0x001)); RD(r, 16); OUT("16.poll-drained-writer-gone", POLLREV(r, 0x001)); CLOSE(r);
+    PIPE(r, w); OUT("16.poll-writable", POLLREV(w, 0x004)); CLOSE(r); OUT("16.poll-writer-reader-gone", POLLREV(w, 0x004)); CLOSE(w);
+    l = SOCK(); LISTEN(l, "s16", 4); c = SOCK(); CONNECT(c, "s16"); s = ACCEPT(l);
+    OUT("16.poll-stream-idle", POLLREV(c, 0x001)); CLOSE(s); OUT("16.poll-stream-peer-closed", POLLREV(c, 0x001) & 0x011);
+    CLOSE(c); CLOSE(l); UNLINK("s16");
 }
